@@ -100,11 +100,24 @@ def gen_chain(rng, mod):
         for _ in range(rng.randint(0, 2)):
             lines.append(rng.choice(["    # filler", "    var pad%d = x + %d" % (len(lines), rng.randint(1, 9)), ""]))
         if k == "throw":
-            if rng.random() < 0.5:
+            r = rng.random()
+            if r < 0.35:
                 lines.append('    throw unchecked "boom" if x > 0')
-            else:
+                frames.append((f"{mod}::{name}", len(lines), pending_tco))
+            elif r < 0.6:
                 lines.append("    var q = 10 / (x - 1)")
-            frames.append((f"{mod}::{name}", len(lines), pending_tco))
+                frames.append((f"{mod}::{name}", len(lines), pending_tco))
+            elif r < 0.8:
+                # the failing one-byte instruction (DIVIDE) belongs to an expression that starts on this line and whose
+                # last operand is computed on the next one: the frame reports the line of the operation, not of the operand
+                lines.append("    var q = 10 /")
+                frames.append((f"{mod}::{name}", len(lines), pending_tco))
+                lines.append("      (x - 1)")
+            else:
+                lines.append("    var q = 10 +")
+                lines.append("      7 %")
+                frames.append((f"{mod}::{name}", len(lines), pending_tco))
+                lines.append("      (x - 1)")
             pending_tco = 0
             lines.append("    x")
         elif k == "plain":
